@@ -805,24 +805,39 @@ def rule_graph_rank(ctx):
     an = F.body_by_path(G + 'add_node')
     if an is not None:
         good = False
-        for (b, bb, si, rv) in lastw.get(an.path, []):
-            vo = b.orig_operand(F.operand(rv['op'])) if rv['k'] == 'use' else frozenset()
-            for o in vo:
-                if o.kind == 'op':
-                    srv = b.blocks[o.key[0]]['stmts'][o.key[1]]['rv']
-                    if srv['k'] == 'bin' and srv['bop'].startswith('Add'):
-                        a = b.orig_operand(F.operand(srv['a']))
-                        c1 = srv['b'].get('k', {}).get('int') == '1'
-                        if any(('f', last) in x.path for x in a) and c1:
-                            # the record is created with that same value
-                            for c in b.calls.values():
-                                if c.name == 'new' and c.args and b.orig_operand(c.args[0]) == vo:
-                                    good = True
-                            for l, ds in b.defs.items():
-                                for d in ds:
-                                    if d[0] == 'stmt' and d[3]['k'] == 'aggr' and strip_generics(b.fix(d[3]['ak'].get('adt', ''))) == g['noderec']:
-                                        if any(b.orig_operand(F.operand(x)) == vo for x in d[3]['ops']):
-                                            good = True
+        b = an
+        incs = []
+        for (_, bb, si, rv) in lastw.get(an.path, []):
+            srv = None
+            if rv['k'] == 'bin':
+                srv = rv
+                vo = None
+            elif rv['k'] == 'use':
+                vo = b.orig_operand(F.operand(rv['op']))
+                for o in vo:
+                    if o.kind == 'op':
+                        srv = b.blocks[o.key[0]]['stmts'][o.key[1]]['rv']
+            if srv is not None and srv['k'] == 'bin' and srv['bop'].startswith('Add') and srv['b'].get('k', {}).get('int') == '1' and \
+                    any(('f', last) in x.path for x in b.orig_operand(F.operand(srv['a']))):
+                incs.append((bb, vo))
+        recs = []  # (block, origins of the rank given to the new record)
+        for c in b.calls.values():
+            cb = F.callee_body(c)
+            if cb is not None and c.name == 'new' and type_head(c.dest_ty) == g['noderec'] and c.args:
+                recs.append((c.bb, b.orig_operand(c.args[0])))
+        for l, ds in b.defs.items():
+            for d in ds:
+                if d[0] == 'stmt' and d[3]['k'] == 'aggr' and strip_generics(b.fix(d[3]['ak'].get('adt', ''))) == g['noderec']:
+                    adt = F.adts.get(g['noderec'])
+                    names = [f['name'] for f in adt['variants'][0]['fields']]
+                    if rank in names:
+                        recs.append((d[1], b.orig_operand(F.operand(d[3]['ops'][names.index(rank)]))))
+        for ibb, vo in incs:
+            for rbb, ro in recs:
+                if vo is not None and ro == vo:
+                    good = True  # the incremented value itself
+                elif ro and all(('f', last) in x.path for x in ro) and (rbb == ibb or b.must_before(rbb, lambda n: n == ibb) is None):
+                    good = True  # the counter is read back after it was incremented
         R.ob('G3-add-node', an.path, good, 'add_node gives the new node rank last+1 and stores that as the new last rank' if good else 'add_node does not assign last+1 consistently', ctx.where(an), props=('C10',))
     rn = F.body_by_path(G + 'remove_node')
     if rn is not None:
